@@ -2286,5 +2286,139 @@ theorem eqP_spec [BEq α] [LawfulBEq α] (a b : Matrix α) (ha : a.Inv) (hb : b.
     rw [hd]
     exact (zip_all_beq b.data b.data rfl).mpr rfl
 
+/-! ## 14. slices: `accepts` is the set semantics -/
+
+theorem accepts_iff_mem (s : Slice) (k : Nat) : s.accepts k = true ↔ s.Mem k := by
+  induction s with
+  | all => simp [Slice.accepts, Slice.Mem]
+  | none => simp [Slice.accepts, Slice.Mem]
+  | single i =>
+    simp only [Slice.accepts, Slice.Mem, beq_iff_eq]
+    exact eq_comm
+  | range a b => simp [Slice.accepts, Slice.Mem]
+  | not s ih => simp [Slice.accepts, Slice.Mem, ← ih]
+  | and a b iha ihb => simp [Slice.accepts, Slice.Mem, iha, ihb]
+  | or a b iha ihb => simp [Slice.accepts, Slice.Mem, iha, ihb]
+
+theorem mem_members (n : Nat) (s : Slice) (k : Nat) :
+    k ∈ s.members n ↔ k < n ∧ s.accepts k = true := by
+  induction s generalizing k with
+  | all => simp [Slice.members, Slice.accepts]
+  | none => simp [Slice.members, Slice.accepts]
+  | single i =>
+    simp only [Slice.members, Slice.accepts, beq_iff_eq]
+    split
+    · simp only [List.mem_singleton]; constructor
+      · rintro rfl; exact ⟨by assumption, rfl⟩
+      · rintro ⟨_, h⟩; exact h.symm
+    · simp only [List.not_mem_nil, false_iff, not_and]
+      intro hk h; subst h; contradiction
+  | range a b =>
+    simp only [Slice.members, Slice.accepts, List.mem_range'_1, decide_eq_true_eq,
+      Bool.and_eq_true]
+    omega
+  | not s ih =>
+    simp only [Slice.members, Slice.accepts, List.mem_filter, List.mem_range,
+      List.contains_eq_mem, decide_eq_false_iff_not, ih, Bool.not_eq_eq_eq_not, Bool.not_true]
+    constructor
+    · rintro ⟨h1, h2⟩
+      refine ⟨h1, ?_⟩
+      cases h : s.accepts k with
+      | false => rfl
+      | true => exact absurd ⟨h1, h⟩ h2
+    · rintro ⟨h1, h2⟩
+      exact ⟨h1, fun h => by rw [h.2] at h2; cases h2⟩
+  | and a b iha ihb =>
+    simp only [Slice.members, Slice.accepts, List.mem_filter, List.contains_eq_mem, decide_eq_true_eq,
+      iha, ihb, Bool.and_eq_true]
+    constructor
+    · rintro ⟨⟨h1, h2⟩, _, h3⟩; exact ⟨h1, h2, h3⟩
+    · rintro ⟨h1, h2, h3⟩; exact ⟨⟨h1, h2⟩, h1, h3⟩
+  | or a b iha ihb =>
+    simp only [Slice.members, Slice.accepts, List.mem_filter, List.mem_range, List.contains_eq_mem,
+      Bool.or_eq_true, decide_eq_true_eq, iha, ihb]
+    constructor
+    · rintro ⟨h1, h2 | h2⟩
+      · exact ⟨h1, Or.inl h2.2⟩
+      · exact ⟨h1, Or.inr h2.2⟩
+    · rintro ⟨h1, h2 | h2⟩
+      · exact ⟨h1, Or.inl ⟨h1, h2⟩⟩
+      · exact ⟨h1, Or.inr ⟨h1, h2⟩⟩
+
+/-! ## 15. a supply of values shared by a sequence of insertions -/
+
+theorem sharedStep_spec (m : Matrix α) (h : m.Inv) (isRow : Bool) (p : Nat) (vs : List α) :
+    (m.sharedStep isRow p vs).1.state.Inv ∧
+    (m.sharedStep isRow p vs).1.state.toRows = (Rows.sharedStep m.toRows isRow p vs).1 ∧
+    (m.sharedStep isRow p vs).1.panic.isSome = (Rows.sharedStep m.toRows isRow p vs).2.1 ∧
+    (m.sharedStep isRow p vs).2 = (Rows.sharedStep m.toRows isRow p vs).2.2 := by
+  have hn : Rows.nrows m.toRows = m.rows := length_toRows m
+  have hc : Rows.ncols m.toRows = m.columns := ncols_toRows m h
+  cases isRow with
+  | true =>
+    obtain ⟨h1, h2, h3⟩ := xexec_spec m h (.op (.insertRowWith p vs))
+    simp only [xexec, exec, Rows.xnext, Rows.xpanics] at h1 h2 h3
+    simp only [sharedStep, Rows.sharedStep, Rows.sharedOp, if_true, hn, hc]
+    exact ⟨h1, h2, h3, trivial⟩
+  | false =>
+    obtain ⟨h1, h2, h3⟩ := xexec_spec m h (.op (.insertColumnWith p vs))
+    simp only [xexec, exec, Rows.xnext, Rows.xpanics] at h1 h2 h3
+    simp only [sharedStep, Rows.sharedStep, Rows.sharedOp, Bool.false_eq_true, if_false, hn, hc]
+    exact ⟨h1, h2, h3, trivial⟩
+
+theorem sharedInserts_spec (steps : List (Bool × Nat)) :
+    ∀ (m : Matrix α), m.Inv → ∀ (vs : List α),
+      (m.sharedInserts steps vs).1.Inv ∧
+      (m.sharedInserts steps vs).1.toRows = (Rows.sharedInserts m.toRows steps vs).1 ∧
+      (m.sharedInserts steps vs).2 = (Rows.sharedInserts m.toRows steps vs).2 := by
+  induction steps with
+  | nil => intro m h vs; exact ⟨h, rfl, rfl⟩
+  | cons st steps ih =>
+    intro m h vs
+    obtain ⟨isRow, p⟩ := st
+    obtain ⟨s1, s2, s3, s4⟩ := sharedStep_spec m h isRow p vs
+    obtain ⟨i1, i2, i3⟩ := ih (m.sharedStep isRow p vs).1.state s1 (m.sharedStep isRow p vs).2
+    simp only [sharedInserts, Rows.sharedInserts]
+    rw [← s2, ← s3, ← s4]
+    refine ⟨i1, i2, ?_⟩
+    rw [i3]
+
+/-! ## 16. the abstraction is injective on invariant matrices; round trips -/
+
+theorem eq_of_toRows_eq (a b : Matrix α) (ha : a.Inv) (hb : b.Inv) (h : a.toRows = b.toRows) :
+    a = b := by
+  rw [eq_ofRows_toRows a ha, eq_ofRows_toRows b hb, ← ncols_toRows a ha, ← ncols_toRows b hb, h]
+
+theorem insertIdx_eraseIdx_self (l : List α) :
+    ∀ (i : Nat) (h : i < l.length), (l.eraseIdx i).insertIdx i l[i] = l := by
+  induction l with
+  | nil => intro i h; simp at h
+  | cons a l ih =>
+    intro i h
+    cases i with
+    | zero => simp
+    | succ i =>
+      simp only [List.eraseIdx_cons_succ, List.insertIdx_succ_cons, List.getElem_cons_succ]
+      rw [ih i (by simpa using h)]
+
+theorem transpose_transpose_toRows (m : Matrix α) (h : m.Inv) :
+    Rows.transpose (Rows.transpose m.toRows) = m.toRows := by
+  obtain ⟨_, hinv, ht⟩ := transpose_spec m h
+  generalize m.transpose.state = t at hinv ht
+  have htr : t.rows = m.columns := by rw [← length_toRows t, ht, length_transpose_toRows m h]
+  have htc : t.columns = m.rows := by
+    rw [← ncols_toRows t hinv, ht]
+    exact ncols_of_rect (rect_transpose_toRows m h)
+      (by rw [length_transpose_toRows m h]; exact h.2.2)
+  rw [← ht]
+  have r1 : Rect m.columns (Rows.transpose t.toRows) := by
+    have := rect_transpose_toRows t hinv; rwa [htr] at this
+  apply rows_ext r1 (rect_toRows m h)
+  · rw [length_transpose_toRows t hinv, htc, length_toRows]
+  · intro i j hi hj
+    rw [length_transpose_toRows t hinv, htc] at hi
+    rw [cell_transpose_toRows t hinv i j (by rw [htc]; exact hi) (by rw [htr]; exact hj),
+      ← cell_toRows t j i, ht, cell_transpose_toRows m h j i hj hi, cell_toRows]
+
 end Matrix
 end EasyMl
